@@ -41,27 +41,17 @@ Proof.
         destruct ((nonempty (u_host dest) || nonempty (u_host self)) && _); reflexivity.
 Qed.
 
-(* ... and Model.navigate is exactly that body behind the dispatch *)
+(* ... and Model.navigate is exactly that body behind the dispatch (dest_copy, the value of
+   URL(dest.to_text(full_quote=True)), modelled as dest itself) *)
 Theorem navigate_is_dispatch_then_core self t as_url :
   navigate self t as_url =
   match url_of_text t with
   | None => None
-  | Some dest =>
-      if as_url && is_absolute_dest dest
-      then match url_of_text (to_text dest) with
-           | Some copy => Some (src_navigate_core self dest true copy)
-           | None => None
-           end
-      else Some (src_navigate_core self dest as_url dest)
+  | Some dest => Some (src_navigate_core self dest as_url dest)
   end.
 Proof.
   unfold navigate. destruct (url_of_text t) as [dest|]; [|reflexivity].
-  destruct as_url; cbn [andb].
-  - destruct (is_absolute_dest dest) eqn:E.
-    + destruct (url_of_text (to_text dest)) as [c|]; [|reflexivity].
-      rewrite src_navigate_core_eq, E. reflexivity.
-    + rewrite src_navigate_core_eq, E. reflexivity.
-  - rewrite src_navigate_core_eq. destruct (is_absolute_dest dest); reflexivity.
+  rewrite src_navigate_core_eq. destruct (is_absolute_dest dest); [destruct as_url|]; reflexivity.
 Qed.
 
 (* URL.from_parts as it is in the source now: starting from cls() - the URL of
